@@ -256,6 +256,18 @@ def startup_part(work, rep, tier, seed, prop):
     open(gp, "w").write("\n".join(take) + "\n")
     o, dt = run_driver(["config", "-in", gp, "-out", tp, "-repo", REPO, "-dir", work.sub("cfg"), "-workers", str(NCPU)], timeout=3000)
     rep.notes.append(o.strip() + " (%.0fs)" % dt)
+    # the shipped configuration once more on a 32-bit build of the same code (int is 32 bits wide: the platform of the ArmoredWitness)
+    d386 = build_driver_386()
+    tp386 = work.path("start-386.ndjson")
+    rc, o386, dt = sh([d386, "config", "-out", tp386, "-repo", REPO, "-dir", work.sub("cfg386"), "-workers", "4"], env=GOENV, timeout=1200)
+    if rc != 0:
+        raise Inconclusive("32-bit start-up walk failed to run (%d):\n%s" % (rc, o386[-3000:]))
+    with open(tp, "a") as f:
+        for l in open(tp386):
+            e = json.loads(l)
+            if e.get("e") == "start.shipped":
+                e["run"] = e["run"] + " [GOARCH=386]"
+                f.write(json.dumps(e) + "\n")
     events = read_ndjson(tp)
     jr = tlc(work, "Trace_Start", cfg_text(spec="JSpec", constants=dict(c, TraceFile=tp), action_constraints=["Monitor"], postcondition="Done"), name="judge-start", workers=1,
              timeout=1800, heap="8g")
@@ -306,10 +318,10 @@ def c19(work, tier, seed, replay):
     # (1) the hostile-server menu, enumerated by TLC from Totality.tla
     r = require_ok(tlc(work, "Totality", cfg_text(spec="Spec", constants={}, invariants=["OnlyAllowed", "EmitScen"], properties=["Total"]), name="MC_Totality", timeout=600),
                    "design check Totality")
-    rep.add_model("Totality (5 feeders x 2 witness states x 19 checkpoint classes x 9 data classes)", r)
+    rep.add_model("Totality (5 feeders x 2 witness states x 19 checkpoint classes x 9 data classes; the REST distributor x 12 distributor answers)", r)
     scens = [json.loads(x) for x in sorted(set(r.prints("HOSTILE")))]
     if tier == "quick":
-        must = [s for s in scens if (s["wit"] == "held" and s["cp"] == "valid") or (s["wit"] == "held" and s["cp"] in ("hash0", "hash5", "hash33") and s["data"] == "valid") or (s["cp"].startswith("size2") and s["data"] == "valid") or (s["feeder"] == "rekor" and (s["cp"].startswith("json-") or s["data"].startswith("json-")) and s["data"] in ("valid", "json-null", "json-odd") and s["cp"] in ("valid", "json-null-shard", "json-inactive-shard", "json-odd-types"))]
+        must = [s for s in scens if s["feeder"] == "distributor" or (s["wit"] == "held" and s["cp"] == "valid") or (s["wit"] == "held" and s["cp"] in ("hash0", "hash5", "hash33") and s["data"] == "valid") or (s["cp"].startswith("size2") and s["data"] == "valid") or (s["feeder"] == "rekor" and (s["cp"].startswith("json-") or s["data"].startswith("json-")) and s["data"] in ("valid", "json-null", "json-odd") and s["cp"] in ("valid", "json-null-shard", "json-inactive-shard", "json-odd-types"))]
         rest = [s for s in scens if s not in must]
         rng.shuffle(rest)
         scens = must + rest[:220]
